@@ -25,8 +25,21 @@ schema("IdxAdapter", sequence=Str, max_error_rate=Real, indels=Bool, name=Str)
 IdxAdapterT = ObjT("IdxAdapter")
 
 
-def _sid(k):
-    return k.fields["__id__"] if isinstance(k, ObjV) else k
+SID_OF = z3.Function("STRING_ID", AII, I, I)
+
+
+def _sid(k, st=None):
+    """id of a string used as a key: environment strings carry theirs; any other string gets the id STRING_ID(chars, length),
+    and is - by the definition of the Hamming sphere of radius 0 - the one member of its own radius-0 sphere"""
+    if isinstance(k, ObjV):
+        return k.fields["__id__"]
+    if isinstance(k, (StrV, PyConst)):
+        s_ = as_str(k)
+        x = SID_OF(s_.arr, s_.n)
+        if st is not None:
+            st.pc.append(SPHERE(s_.arr, s_.n, 0, x))
+        return x
+    return k
 
 
 def install(world):
@@ -39,7 +52,7 @@ def install(world):
     world.builtins["dict"] = b_dict
 
     def getitem(ex, st, d, idx, node, spec):
-        x = _sid(idx)
+        x = _sid(idx, st)
         if not spec:
             ex.cx.pending.append((z3.Not(d.fields["has"][x]), "KeyError"))
         from pyvc import heap
@@ -47,7 +60,7 @@ def install(world):
     world.handlers[("IdDict", "__getitem__")] = getitem
 
     def setitem(ex, st, d, idx, v, node):
-        x = _sid(idx)
+        x = _sid(idx, st)
         f = dict(d.fields)
         f["has"] = z3.Store(f["has"], x, z3.BoolVal(True))
         for i, it in enumerate(v.items[:4]):
@@ -86,6 +99,9 @@ def install(world):
         st.pc += [n >= 0, z3.ForAll([j], z3.Implies(z3.And(0 <= j, j < n), SPHERE(seq.arr, seq.n, e, ids[j])), patterns=[ids[j]])]
         return SeqV(ids, n, lambda t: ObjV("IdxStr", {"__id__": t}))
     world.builtins["hamming_sphere"] = sphere
+    from .c10 import abstract_ctor
+    for cls in ("IndexedPrefixAdapters", "IndexedSuffixAdapters"):
+        world.ctor_handlers.setdefault(cls, abstract_ctor(cls))
 
 
 def _EnvSeq(ids, es, ms, n):
@@ -334,3 +350,24 @@ def split_adapters(c):
               each_group_holds_what_it_should="group_ok(result[0], result[1], result[2])")
     c.mutant("elif AdapterIndex.is_acceptable(a, prefix=False):", "elif AdapterIndex.is_acceptable(a, prefix=True):")
     c.mutant("other.append(a)", "pass")
+
+
+@contract("modifiers.py", "AdapterCutter._regroup_into_indexed_adapters", props=["C09", "C08"])
+def regroup_into_indexed_adapters(c):
+    """Adapters are re-grouped only when an index is actually built (more than one indexable 5' anchored or more than one
+    indexable 3' anchored adapter); otherwise the list - and with it the order that decides ties - stays as given."""
+    c.types(self=ObjT("AdapterCutter"), adapters=SeqT(AnyAdapterT))
+    c.returns(SeqT(AnyAdapterT))
+    for nme in ("prefix", "suffix", "single", "result"):
+        c.local_types[nme] = SeqT(AnyAdapterT)
+
+    def sp(cx):
+        cx.spec["same_seq"] = lambda a, b: z3.And(a.n == b.n, a.arr == b.arr)
+    c.spec(sp)
+    INDEXED = "(len(prefix) > 1 or len(suffix) > 1)"
+    c.ensures(
+        without_an_index_the_adapters_stay_as_given=f"implies(not {INDEXED}, same_seq(result, adapters))",
+        with_an_index_each_group_becomes_one_searcher="implies(%s, len(result) == len(single) + (1 if len(prefix) > 1 else len(prefix)) + "
+                                                      "(1 if len(suffix) > 1 else len(suffix)))" % INDEXED,
+    )
+    c.mutant("if len(prefix) > 1 or len(suffix) > 1:", "if len(prefix) + len(suffix) > 1:")
